@@ -75,7 +75,8 @@ def run(ctx):
     for i in live:
         fam[cases[i][3]] = fam.get(cases[i][3], 0) + 1
     ctx.cov['by_family'] = fam
-    ctx.cov['impl_distinct'] = len(recs)
+    ctx.cov['blocks'] = len(recs)
+    ctx.cov['impl_distinct'] = sum(1 for o in recs if b'content-length' in bytes(o['block']).lower())
     dec = {}
     for o in recs:
         k = decision(o).split('(')[0]
@@ -90,7 +91,8 @@ def run(ctx):
                        'list forms, 2^63-1, 2^63, 2^64+1), products of 2 sampled (thorough: all), of 3 sampled, in seeded orders, with and without '
                        'Transfer-Encoding variants and a neighbour field; seeded random digit strings around 2^31/2^32/2^63/2^64 and random lists; '
                        'structural blocks (folds, bare CR, whitespace before colon) that mention a framing field. All for both owners and both '
-                       'parser modes. Cases are distinct (owner, mode, block) triples.' % len(hb.CL_VALUES))
+                       'parser modes. Cases are distinct (owner, mode, block) triples (blocks); non-trivial (impl_distinct / distinct_nontrivial) = the block '
+                       'names Content-Length at least once.' % len(hb.CL_VALUES))
     ctx.assumptions += ['the observed decision is read off the accessors the callers use: parse() result, has(Transfer-Encoding)/unsupportedTe(), '
                         'conflictingContentLength(), getInt64(CONTENT_LENGTH)',
                         'a fresh Http::ContentLengthInterpreter without status-code or trailer rules (prohibitedAndIgnored unset)',
